@@ -429,3 +429,48 @@ package graphalg
 //@   requires t != nil && 0 <= n && n < len(t.children)
 //@   ensures [def] len(result) == len(t.children[n]) && (forall e in 0..len(result) :: result[e] == t.children[n][e])
 //@   assigns nothing
+
+// ---------------------------------------------------------------------
+// Compressed adjacency structures (C18): the accessors of the condensation
+// built by SCC and of the simple graph built by SimplifyMulti, against the
+// representation invariant of an index table over a flat array (the builders
+// themselves - SCC, SimplifyMulti - are not under contract; bounded stand-in).
+//@ spec wfIndex(idx []int, total int) bool = len(idx) >= 1 && (forall k in 0..len(idx)-1 :: 0 <= idx[k] && idx[k] <= idx[k+1] && idx[k+1] <= total)
+
+//@ func SCCGraph.NumNodes
+//@   model int
+//@   requires g != nil
+//@   ensures [def] result == len(g.subnodeIndexes) - 1
+//@   assigns nothing
+//@ func SCCGraph.Subnodes
+//@   model int
+//@   requires g != nil && wfIndex(g.subnodeIndexes, len(g.subnodes)) && 0 <= cid && cid < len(g.subnodeIndexes) - 1
+//@   ensures [def] len(result) == g.subnodeIndexes[cid+1] - g.subnodeIndexes[cid] && (forall e in 0..len(result) :: result[e] == g.subnodes[g.subnodeIndexes[cid] + e])
+//@   assigns nothing
+//@ func SCCGraph.SubnodeComponent
+//@   model int
+//@   requires g != nil && !isnil(g.subnodeComponent) && 0 <= subID && subID < len(g.subnodeComponent)
+//@   ensures [def] componentID == g.subnodeComponent[subID]
+//@   assigns nothing
+//@ func SCCGraph.Out
+//@   model int
+//@   requires g != nil && (!isnil(g.out) ==> wfIndex(g.outIndexes, len(g.out)) && 0 <= cid && cid < len(g.outIndexes) - 1)
+//@   ensures [no-edges] isnil(g.out) ==> isnil(result)
+//@   ensures [def] !isnil(g.out) ==> len(result) == g.outIndexes[cid+1] - g.outIndexes[cid] && (forall e in 0..len(result) :: result[e] == g.out[g.outIndexes[cid] + e])
+//@   assigns nothing
+
+//@ func simplified.NumNodes
+//@   model int
+//@   requires g != nil
+//@   ensures [def] result == len(g.indexes) - 1
+//@   assigns nothing
+//@ func simplified.Out
+//@   model int
+//@   requires g != nil && wfIndex(g.indexes, len(g.edges)) && 0 <= n && n < len(g.indexes) - 1
+//@   ensures [def] len(result) == g.indexes[n+1] - g.indexes[n] && (forall e in 0..len(result) :: result[e] == g.edges[g.indexes[n] + e])
+//@   assigns nothing
+//@ func simplified.OutWeight
+//@   model real
+//@   requires g != nil && wfIndex(g.indexes, len(g.weights)) && 0 <= n && n < len(g.indexes) - 1 && 0 <= e && e < g.indexes[n+1] - g.indexes[n]
+//@   ensures [def] result == g.weights[g.indexes[n] + e]
+//@   assigns nothing
